@@ -129,7 +129,20 @@ func pipeSrcIP(x int) net.IP { return net.IP{127, 0, 0, byte(x)} }
 
 // ---- solo decode = class ----
 
-func pipeClassIPFIX(src int, body []byte, cache ipfix.MemCache) byte {
+// genPanic: the real decoder panicked while the generator was classifying a datagram. That is a finding in its own
+// right (C01) and must not take the generator down: the datagram is reported on stderr as a replayable case of the
+// single-datagram kind of its protocol, and classified 'x' so that the pipeline case still runs.
+func genPanic(kind, line string, p interface{}) {
+	fmt.Fprintf(os.Stderr, "GENPANIC\t%s\t%s\t%s\n", kind, line, strings.Replace(fmt.Sprint(p), "\n", " ", -1))
+}
+
+func pipeClassIPFIX(src int, body []byte, cache ipfix.MemCache) (cls byte) {
+	defer func() {
+		if p := recover(); p != nil {
+			genPanic("ipfix", "ipfix "+hex.EncodeToString(pipeSrcIP(src).To4())+" "+hex.EncodeToString(body), p)
+			cls = 'x'
+		}
+	}()
 	msg, _ := ipfix.NewDecoder(pipeSrcIP(src), append([]byte{}, body...)).Decode(cache)
 	if msg == nil {
 		return 'x'
@@ -143,7 +156,13 @@ func pipeClassIPFIX(src int, body []byte, cache ipfix.MemCache) byte {
 	return 'd'
 }
 
-func pipeClassV9(src int, body []byte, cache netflow9.MemCache) byte {
+func pipeClassV9(src int, body []byte, cache netflow9.MemCache) (cls byte) {
+	defer func() {
+		if p := recover(); p != nil {
+			genPanic("nf9", "nf9 "+hex.EncodeToString(pipeSrcIP(src).To4())+" "+hex.EncodeToString(body), p)
+			cls = 'x'
+		}
+	}()
 	msg, _ := netflow9.NewDecoder(pipeSrcIP(src), append([]byte{}, body...)).Decode(cache)
 	if msg == nil {
 		return 'x'
@@ -157,7 +176,13 @@ func pipeClassV9(src int, body []byte, cache netflow9.MemCache) byte {
 	return 'd'
 }
 
-func pipeClassV5(src int, body []byte) byte {
+func pipeClassV5(src int, body []byte) (cls byte) {
+	defer func() {
+		if p := recover(); p != nil {
+			genPanic("nf5", "nf5 "+hex.EncodeToString(pipeSrcIP(src).To4())+" "+hex.EncodeToString(body), p)
+			cls = 'x'
+		}
+	}()
 	// NetFlow v5 has no partially decodable datagram (no templates, no sets to skip): "decodes successfully" (C13)
 	// is "Decode reports no error". Until F29 this read `msg == nil`, copied from the worker's own test, and a
 	// datagram shorter than its header announces (a message AND an error) was classed 't' = counted as decoded.
@@ -174,7 +199,13 @@ func pipeClassV5(src int, body []byte) byte {
 	return 'd'
 }
 
-func pipeClassSFlow(body []byte) byte {
+func pipeClassSFlow(body []byte) (cls byte) {
+	defer func() {
+		if p := recover(); p != nil {
+			genPanic("sflow", "sflow - "+hex.EncodeToString(body), p)
+			cls = 'x'
+		}
+	}()
 	d := sflow.NewSFDecoder(bytes.NewReader(append([]byte{}, body...)), []uint32{})
 	dg, err := d.SFDecode()
 	if err != nil {
